@@ -10,6 +10,7 @@ package main
 // a few YAML-only spellings (`~`, anchors/aliases, tags) are injected as raw scalars.
 
 import (
+	"bufio"
 	"encoding/json"
 	"fmt"
 	"os"
@@ -728,38 +729,44 @@ func c04ConfigCase(r *rng, files map[string]*c04CfgFile, seeds []c04Seed, i int,
 // whose bodies are sequences of text, field accesses, builtin calls, conditionals on the data, and
 // inclusions of blocks (possibly of themselves) with the current data or a fresh `dict`.
 func c04GenTemplate(r *rng) string {
+	// the data handed around is always a dict (keys leaf / n / x), so that field accesses do not fail and the
+	// templates actually run: errors are injected separately, at a low rate
 	nb := 1 + r.intn(3)
 	name := func() string { return fmt.Sprintf("b%d", r.intn(nb)) }
 	arg := func() string {
-		return pick(r, []string{".", ".", `(dict "leaf" true)`, `(dict "leaf" false)`, `(dict)`, `(dict "leaf" true "n" 1)`, `.Package`, `(dict "x" .)`})
+		return pick(r, []string{".", ".", ".", `(dict "leaf" true)`, `(dict "leaf" true)`, `(dict "leaf" false)`, `(dict)`, `(dict "leaf" .leaf "n" 1)`, `(dict "x" .)`})
 	}
 	var body func(depth int) string
 	atom := func(depth int) string {
-		switch r.intn(11) {
-		case 0, 1, 2:
+		switch r.intn(20) {
+		case 0, 1, 2, 3, 4, 5:
 			return fmt.Sprintf(`{{ include "%s" %s }}`, name(), arg())
-		case 3:
-			return pick(r, []string{"text ", "leaf", "# title\n", "x"})
-		case 4:
-			return pick(r, []string{"{{ .leaf }}", "{{ .n }}", "{{ .Package }}", "{{ . }}", "{{ .nope.deeper }}"})
-		case 5:
-			return pick(r, []string{"{{ add1 1 }}", `{{ first (listStr "a") }}`, "{{ first (listStr) }}", `{{ default "d" .x }}`, `{{ ternary "a" "b" true }}`, `{{ dict "k" }}`, `{{ dict 1 2 }}`, "{{ sub1 0 }}", `{{ last (listStr) }}`})
 		case 6, 7:
+			return pick(r, []string{"text ", "leaf", "# title", "x"})
+		case 8, 9:
+			return pick(r, []string{"{{ .leaf }}", "{{ .n }}", "{{ .x }}"})
+		case 10:
+			return pick(r, []string{"{{ add1 1 }}", `{{ first (listStr "a") }}`, `{{ default "d" .x }}`, `{{ ternary "a" "b" true }}`, `{{ dict "k" }}`, "{{ sub1 0 }}"})
+		case 11, 12, 13, 14:
 			if depth < 2 {
 				return "{{ if .leaf }}" + body(depth+1) + "{{ else }}" + body(depth+1) + "{{ end }}"
 			}
 			return "leaf"
-		case 8:
+		case 15:
 			if depth < 2 {
 				return `{{ range (listStr "a" "b") }}` + body(depth+1) + "{{ end }}"
 			}
 			return "r"
-		case 9:
-			// (the native `template` action is not generated: its recursion is bounded by text/template's own
-			// depth limit of 100000, which only fits in Go's default 1 GB stack, not in the workers' 64 MB)
-			return fmt.Sprintf(`{{ include "%s" %s }}`, name(), arg())
+		case 16:
+			if depth < 2 {
+				return "{{ if .n }}" + body(depth+1) + "{{ end }}"
+			}
+			return "n"
+		case 17:
+			// deliberate run-time / parse errors
+			return pick(r, []string{"{{ first (listStr) }}", `{{ last (listStr) }}`, "{{ dict 1 2 }}", "{{ .nope.deeper }}", `{{ include "missing" . }}`, "{{ nope }}", "{{ include }}", "{{"})
 		default:
-			return pick(r, []string{"{{", "{{ end }}", "{{ nope }}", `{{ include "missing" . }}`, "{{ include }}"})
+			return "\n"
 		}
 	}
 	body = func(depth int) string {
@@ -770,11 +777,26 @@ func c04GenTemplate(r *rng) string {
 		}
 		return sb.String()
 	}
+	// most recursive templates are "walkers": a base case on the data, otherwise a few inclusions (of the
+	// block itself or of its siblings) on the same or on fresh data; the rest are free-form bodies
+	walker := func() string {
+		var sb strings.Builder
+		sb.WriteString("{{ if .leaf }}" + pick(r, []string{"leaf", "{{ .n }}", "x"}) + "{{ else }}\n")
+		for k := 1 + r.intn(3); k > 0; k-- {
+			fmt.Fprintf(&sb, "{{ include \"%s\" %s }}\n", name(), arg())
+		}
+		sb.WriteString("{{ end }}\n")
+		return sb.String()
+	}
 	var sb strings.Builder
 	for i := 0; i < nb; i++ {
-		fmt.Fprintf(&sb, "{{- define \"b%d\" -}}\n%s{{- end -}}\n", i, body(0))
+		b := body(0)
+		if r.chance(60) {
+			b = walker()
+		}
+		fmt.Fprintf(&sb, "{{- define \"b%d\" -}}\n%s{{- end -}}\n", i, b)
 	}
-	fmt.Fprintf(&sb, `{{ include "b0" %s }}`+"\n", pick(r, []string{".", `(dict "leaf" false)`, `(dict "leaf" true)`, `(dict)`}))
+	fmt.Fprintf(&sb, `{{ include "b0" %s }}`+"\n", pick(r, []string{`(dict "leaf" false)`, `(dict "leaf" false)`, `(dict "leaf" true)`, `(dict)`}))
 	return sb.String()
 }
 
@@ -832,4 +854,15 @@ func c04CfgSortedNames(m map[string]*c04CfgFile) []string {
 	}
 	sort.Strings(out)
 	return out
+}
+
+func init() {
+	// debugging aid: print generated templates
+	register("c04-dump-templates", func(args map[string]string, out *bufio.Writer) error {
+		r := newRng(uint64(argInt(args, "seed", 1)))
+		for i := 0; i < argInt(args, "n", 5); i++ {
+			fmt.Fprintf(out, "----- %d\n%s\n", i, c04GenTemplate(r))
+		}
+		return nil
+	})
 }
